@@ -1,4 +1,4 @@
-SPECIFICATION Spec
+SPECIFICATION GenSpec
 CONSTANTS
   Procs = {"g1", "g2"}
   FastTypes = {"A", "Q"}
@@ -6,7 +6,6 @@ CONSTANTS
   QType = "Q"
   Sides = {"enc"}
   Variant = "race"
-  MaxCalls = 2
+  MaxCalls = 1
   Deviations = {}
-
-INVARIANTS OwnProgram Export
+INVARIANTS OwnProgram SlotOwner Export
